@@ -63,6 +63,8 @@ type c05File struct {
 	Profile  int
 	NRefs    int
 	HdrKind  int
+	hd       c05HD
+	hdrVals  [][2]string
 	WC       int
 	Recs     []*c05Sem
 	hdr      *sam.Header
@@ -741,11 +743,39 @@ func rndShuffle(rnd *Rand, a []c05Aux) {
 	}
 }
 
+// c05HD is what the generator intends the @HD line to say (SAMv1 §1.3): SO 0..3 = unknown, unsorted, queryname,
+// coordinate; GO 0 = no GO field, 1..3 = none, query, reference.
+type c05HD struct {
+	Has     bool
+	Version string
+	SO, GO  int
+}
+
+var c05SONames = []string{"unknown", "unsorted", "queryname", "coordinate"}
+var c05GONames = []string{"", "none", "query", "reference"}
+
+// line is the @HD line an encoder written from the specification produces for the intent.
+func (hd c05HD) line() string {
+	l := fmt.Sprintf("@HD\tVN:%s\tSO:%s", hd.Version, c05SONames[hd.SO])
+	if hd.GO > 0 {
+		l += "\tGO:" + c05GONames[hd.GO]
+	}
+	return l
+}
+
 func c05GenHeader(rnd *Rand, nrefs, kind int) (*sam.Header, error) {
+	h, _, err := c05GenHeaderHD(rnd, nrefs, kind)
+	return h, err
+}
+
+func c05GenHeaderHD(rnd *Rand, nrefs, kind int) (*sam.Header, c05HD, error) {
 	var refs []*sam.Reference
 	var text strings.Builder
+	// every sort order and every group order (absent, none, query, reference), in text-built and in API-built headers
+	hd := c05HD{Version: []string{"1.6", "1.0", "1.5"}[rnd.intn(3)], SO: rnd.intn(4), GO: rnd.intn(4)}
+	hd.Has = kind >= 1 || rnd.coin(2, 3)
 	if kind >= 1 {
-		fmt.Fprintf(&text, "@HD\tVN:1.6\tSO:%s\n", []string{"unknown", "unsorted", "queryname", "coordinate"}[rnd.intn(4)])
+		fmt.Fprintf(&text, "%s\n", hd.line())
 	}
 	for i := 0; i < nrefs; i++ {
 		name := fmt.Sprintf("chr%d", i+1)
@@ -766,7 +796,7 @@ func c05GenHeader(rnd *Rand, nrefs, kind int) (*sam.Header, error) {
 		default:
 			r, err := sam.NewReference(name, "", "", ln, nil, nil)
 			if err != nil {
-				return nil, err
+				return nil, hd, err
 			}
 			refs = append(refs, r)
 		}
@@ -792,7 +822,94 @@ func c05GenHeader(rnd *Rand, nrefs, kind int) (*sam.Header, error) {
 	if text.Len() > 0 {
 		tb = []byte(text.String())
 	}
-	return sam.NewHeader(tb, refs)
+	h, err := sam.NewHeader(tb, refs)
+	if err != nil {
+		return nil, hd, err
+	}
+	if kind == 0 && hd.Has {
+		// API-built: the exported fields set directly
+		h.Version = hd.Version
+		h.SortOrder = sam.SortOrder(hd.SO)
+		h.GroupOrder = sam.GroupOrder(hd.GO)
+	}
+	return h, hd, nil
+}
+
+// c05HeaderValues lists the values a header exposes through its exported fields and accessors (never through
+// MarshalText/String), as (field, value) pairs in a fixed order.
+func c05HeaderValues(h *sam.Header) [][2]string {
+	var v [][2]string
+	add := func(k string, x interface{}) { v = append(v, [2]string{k, fmt.Sprint(x)}) }
+	add("Version", h.Version)
+	add("SortOrder", int(h.SortOrder))
+	add("GroupOrder", int(h.GroupOrder))
+	add("Refs.count", len(h.Refs()))
+	for i, r := range h.Refs() {
+		p := fmt.Sprintf("Ref[%d].", i)
+		add(p+"ID", r.ID())
+		add(p+"Name", r.Name())
+		add(p+"Len", r.Len())
+		add(p+"AssemblyID", r.AssemblyID())
+		add(p+"Species", r.Species())
+		add(p+"MD5", hexs(r.MD5()))
+		add(p+"URI", r.URI())
+		var tags []string
+		r.Tags(func(t sam.Tag, val string) { tags = append(tags, t.String()+"="+val) })
+		add(p+"Tags", strings.Join(tags, "|"))
+	}
+	add("RGs.count", len(h.RGs()))
+	for i, g := range h.RGs() {
+		p := fmt.Sprintf("RG[%d].", i)
+		add(p+"ID", g.ID())
+		add(p+"Name", g.Name())
+		add(p+"Library", g.Library())
+		add(p+"PlatformUnit", g.PlatformUnit())
+		add(p+"Time", g.Time().UTC().UnixNano())
+		var tags []string
+		g.Tags(func(t sam.Tag, val string) { tags = append(tags, t.String()+"="+val) })
+		add(p+"Tags", strings.Join(tags, "|"))
+	}
+	add("Progs.count", len(h.Progs()))
+	for i, g := range h.Progs() {
+		p := fmt.Sprintf("Prog[%d].", i)
+		add(p+"ID", g.ID())
+		add(p+"UID", g.UID())
+		add(p+"Name", g.Name())
+		add(p+"Command", g.Command())
+		add(p+"Previous", g.Previous())
+		add(p+"Version", g.Version())
+		var tags []string
+		g.Tags(func(t sam.Tag, val string) { tags = append(tags, t.String()+"="+val) })
+		add(p+"Tags", strings.Join(tags, "|"))
+	}
+	add("Comments.count", len(h.Comments))
+	for i, c := range h.Comments {
+		add(fmt.Sprintf("Comment[%d]", i), c)
+	}
+	return v
+}
+
+// c05HeaderDiff returns the name (index stripped) of the first exposed value that differs, and a description.
+func c05HeaderDiff(a, b [][2]string) (string, string) {
+	for i := range a {
+		if i >= len(b) || a[i] != b[i] {
+			other := "(missing)"
+			if i < len(b) {
+				other = b[i][0] + "=" + b[i][1]
+			}
+			name := a[i][0]
+			if k := strings.Index(name, "["); k >= 0 {
+				if j := strings.Index(name, "]"); j > k {
+					name = name[:k] + name[j+1:]
+				}
+			}
+			return name, fmt.Sprintf("written %s=%s, read %s", a[i][0], a[i][1], other)
+		}
+	}
+	if len(b) > len(a) {
+		return "extra", "the header read exposes more values: " + b[len(a)][0]
+	}
+	return "", ""
 }
 
 // profiles: 0 small mixed file, 1 every aux type, 2 records around the 4 KiB buffer boundary, 3 records around/above a
@@ -806,7 +923,8 @@ func c05GenFile(seed uint64, profile int) (*c05File, error) {
 	}
 	f.HdrKind = rnd.pick([]int{0, 0, 1, 1, 2, 3})
 	f.WC = rnd.intn(4)
-	h, err := c05GenHeader(rnd, f.NRefs, f.HdrKind)
+	h, hd, err := c05GenHeaderHD(rnd, f.NRefs, f.HdrKind)
+	f.hd = hd
 	if err != nil {
 		return nil, fmt.Errorf("header: %v", err)
 	}
@@ -1131,6 +1249,13 @@ func c05RunFile(c *ctx, f *c05File, d *Driver, impl *[]string) {
 	var err error
 	f.hdrText, _ = h.MarshalText()
 	f.hdrBin, _ = h.MarshalBinary()
+	f.hdrVals = c05HeaderValues(h)
+	if f.hd.Has {
+		r.hist("header.SO=" + c05SONames[f.hd.SO])
+		r.hist("header.GO=" + []string{"absent", "none", "query", "reference"}[f.hd.GO])
+	} else {
+		r.hist("header.no-@HD")
+	}
 	r.hist(fmt.Sprintf("file.profile%d", f.Profile))
 	r.hist(fmt.Sprintf("file.hdrkind%d", f.HdrKind))
 	r.hist(fmt.Sprintf("file.nrefs=%d", f.NRefs))
@@ -1191,6 +1316,18 @@ func c05RunFile(c *ctx, f *c05File, d *Driver, impl *[]string) {
 	if err != nil {
 		r.fail("c05.bytes.header", err.Error(), in)
 		return
+	}
+	if f.hd.Has {
+		// the @HD line in the file against the line the specification prescribes for the intended values
+		first := string(text)
+		if k := strings.IndexByte(first, '\n'); k >= 0 {
+			first = first[:k]
+		}
+		if first != f.hd.line() {
+			r.fail("c05.bytes.header.hd-line", fmt.Sprintf("@HD line in the file is %q, the specification gives %q", first, f.hd.line()), in)
+		}
+	} else if bytes.HasPrefix(text, []byte("@HD")) {
+		r.fail("c05.bytes.header.hd-line", "an @HD line was written for a header without a version", in)
 	}
 	if !bytes.Equal(text, f.hdrText) || len(names) != len(h.Refs()) {
 		r.fail("c05.bytes.header", "header text or reference count in the file differ from the header given", in)
@@ -1349,6 +1486,13 @@ func c05RunFile(c *ctx, f *c05File, d *Driver, impl *[]string) {
 				continue
 			}
 			if k == 0 && omit == 0 {
+				if fld, what := c05HeaderDiff(f.hdrVals, c05HeaderValues(out.hdr)); fld != "" {
+					r.fail("c05.header.value."+fld, "header read back is not equal to the header written: "+what, in)
+				}
+				if f.hd.Has && (out.hdr.Version != f.hd.Version || int(out.hdr.SortOrder) != f.hd.SO || int(out.hdr.GroupOrder) != f.hd.GO) {
+					r.fail("c05.header.value.hd-intent", fmt.Sprintf("header read back has VN=%q SO=%d GO=%d, generated %q %d %d",
+						out.hdr.Version, int(out.hdr.SortOrder), int(out.hdr.GroupOrder), f.hd.Version, f.hd.SO, f.hd.GO), in)
+				}
 				t2, _ := out.hdr.MarshalText()
 				b2, _ := out.hdr.MarshalBinary()
 				if !bytes.Equal(t2, f.hdrText) {
